@@ -465,12 +465,12 @@ fn parts(ctx: &Ctx) -> Vec<PartSpec> {
     let n = alphabet().len();
     if ctx.quick() {
         for (ci, _) in CONFIGS.iter().enumerate() {
-            v.push(PartSpec::new(&format!("e3-d4-config{}", ci), json!({"cfg": ci, "depth": 4})).budget(50.0));
+            v.push(PartSpec::new(&format!("e3-d4-config{}", ci), json!({"cfg": ci, "depth": 4})).budget(150.0));
         }
         v.push(PartSpec::new("e1-1recorder-pb2", json!({"e1": 2, "recorders": 1})).cpus("0"));
-        v.push(PartSpec::new("e1-2recorders-pb2", json!({"e1": 2, "recorders": 2})).cpus("0").budget(45.0));
-        v.push(PartSpec::new("e1-2recorders-handover63-pb2", json!({"e1": 2, "recorders": 2, "prefill": 63})).cpus("0").budget(50.0));
-        v.push(PartSpec::new("e1-1recorder-2drainers-pb2", json!({"e1": 2, "recorders": 1, "prefill": 2, "upkeeper": true})).cpus("0").budget(50.0));
+        v.push(PartSpec::new("e1-2recorders-pb2", json!({"e1": 2, "recorders": 2})).cpus("0").budget(150.0));
+        v.push(PartSpec::new("e1-2recorders-handover63-pb2", json!({"e1": 2, "recorders": 2, "prefill": 63})).cpus("0").budget(150.0));
+        v.push(PartSpec::new("e1-1recorder-2drainers-pb2", json!({"e1": 2, "recorders": 1, "prefill": 2, "upkeeper": true})).cpus("0").budget(150.0));
     } else {
         for (ci, _) in CONFIGS.iter().enumerate() {
             for f in 0..n {
